@@ -13,8 +13,18 @@ Ties:
 from common import prepare
 
 
+LEVEL_NOTE = ('PROVED (forall, Coq, on the schema terms regenerated from /repo): fuel monotonicity, inversion of every keyword '
+              '(den_sound), and `accepted by the final schema config/3/config => documented shape of every object of the effective '
+              'configuration` (config_doc false), minus the constraints that are `_refuted` theorems with replayed witnesses. '
+              'VALIDATED (correspondence, every run): Gallina validator + translator vs python-jsonschema as barectf sets it up. '
+              'VALIDATED ONLY (oracle on the real code, c09_oracle): the constraints barectf checks in Python after schema validation '
+              '(power-of-two alignment, duplicate/reserved members, nested structure/dynamic array, ID field widths, single default '
+              'stream, unknown alias/clock/log level/include, cycles), the pre-expansion stages, and the whole barectf 2 dialect.')
+
+
 def run(ctx):
     prepare(ctx)
+    ctx.notes.insert(0, LEVEL_NOTE)
     from props import c09_corr, c09_oracle
     c09_corr.run(ctx)
     c09_oracle.run(ctx)
